@@ -189,7 +189,7 @@ def build_request(rng, ident, well_formed=True, method=None, allow_body=True):
 def build_response(rng, ident, head_method=False, close_delimited_ok=False):
     status = rng.choice([200, 200, 200, 404, 500, 204, 304, 301])
     proto = rng.choice([b"HTTP/1.1", b"HTTP/1.1", b"HTTP/1.0"])
-    hdrs = [(b"X-Id", b"%d" % ident)]
+    hdrs = [(b"Resp-Id", b"%d" % ident)]      # cannot collide with the random "X-..." field names
     for _ in range(rng.randint(0, 3)):
         hdrs.append((b"X-" + rand_token(rng), rand_token(rng, rng.randint(0, 12))))
     body = b""
